@@ -93,7 +93,12 @@ MCFairSpec == MCSpec /\ WF_mcvars(ProcStep) /\ \A c \in Clients : WF_mcvars(Clie
 \* every behaviour ends (budgets are finite): terminal states are legitimate, others are deadlocks
 AllDone == \A c \in Clients : cli[c].pc = "idle"
 \* C10 / C12 liveness: every started call returns
-EveryCallReturns == \A c \in Clients : (cli[c].pc # "idle") ~> (cli[c].pc = "idle")
+\* a call may stay blocked for ever only under known finding D6 (orphaned wait marker)
+EveryCallReturns == \A c \in Clients : (cli[c].pc # "idle") ~> (cli[c].pc = "idle" \/ "D6" \in kf)
+\* the same without the exemption: expected to be VIOLATED (witness that D6 is reachable and that the liveness check bites)
+EveryCallReturnsStrict == \A c \in Clients : (cli[c].pc # "idle") ~> (cli[c].pc = "idle")
+\* C12: after a close() has returned Ok both workers are gone (sync) / have their stop signal (async)
+WorkersStop == (closed) ~> (proc.pc = "exited" /\ (~pol.alive \/ pol.q > 0))
 \* a blocked client with nobody able to release it
 Stuck == \E c \in Clients : cli[c].pc \in {"waiting", "cls_stop_wait", "cls_pol_wait", "rem_blocked"} /\ ~ENABLED MCNext
 NoStuck == ~Stuck
